@@ -50,6 +50,12 @@ def struct_space(code: int, seed: int, thorough: bool) -> Iterator[bytes]:
                     if thorough and body_len >= 3:
                         for c in (0, 1, 2, 0x0F, 0x10, 0xFF):
                             cands.append(f[:2] + bytes((c,)) + f[3:])
+                    # flag octets (security control field, restart type, property counts): every single bit of the first three
+                    # body octets set alone in the all-zero body / cleared alone in the all-ones body
+                    if f in (fills[0], fills[1]):
+                        for pos in range(min(3, body_len)):
+                            for bit in range(8):
+                                cands.append(f[:pos] + bytes((f[pos] ^ (1 << bit),)) + f[pos + 1:])
                 for b in cands:
                     if b not in seen:
                         seen.add(b)
